@@ -114,3 +114,7 @@ MUTANTS += [
  {"id": "tc-compare-accepts-explicit-mismatch", "props": ["C10"], "edits": [("pymtl3/passes/rtlir/behavioral/BehavioralRTLIRTypeCheckL2Pass.py", "    if l_explicit and r_explicit:\n      if l_type != r_type:", "    if l_explicit and r_explicit:\n      if l_type != r_type and l_nbits > r_nbits:")]},
  {"id": "tc-binop-accepts-explicit-mismatch", "props": ["C10"], "edits": [("pymtl3/passes/rtlir/behavioral/BehavioralRTLIRTypeCheckL2Pass.py", "        if not isinstance( op, s.BinOp_left_nbits ) and l_type != r_type:", "        if not isinstance( op, s.BinOp_left_nbits ) and l_type != r_type and l_nbits < r_nbits:")]},
 ]
+
+MUTANTS += [
+ {"id": "revert-F-C1", "props": ["C08"], "edits": [("pymtl3/dsl/NamedObject.py", "        if s.__dict__.get( name ) is obj:\n          return\n        fields = sd.NamedObject_fields", "        fields = sd.NamedObject_fields")]},
+]
